@@ -64,6 +64,10 @@ structure Opts where
   select : Option (List Str)   -- nil vs non-nil slice
   bypass : Bool
   fwd : Str
+  -- forwarded untouched; never read by splitListRequest
+  includeTrash : Bool := false
+  includeOldVersions : Bool := false
+  distinct : Bool := false
 deriving DecidableEq, Repr
 
 /-- Answer of one backend call. `error 0` is an error without an HTTP status. -/
